@@ -32,6 +32,24 @@ def run(ctx):
     rep.rule("C15.R3", "A1 never overwrite: import unreachable from failure/mismatch/dirty/blocked edges")
     rep.rule("C15.R4", "A1/A2/A3 fork: wholesale restore, heads from the request, bounded copy, lane rewrite")
     rep.rule("C15.R5", "A6 totality over revalidation states")
+    rep.rule("C15.R6", "A4 the divergence / parent-movement footprints are collected from EVERY recorded patch of the lane: collection reads the entry's patch and never its event kind")
+    # Settlement decides "may this be imported without revalidation" from the slots the parent touched since the fork.  Every
+    # provenance entry that carries a patch moved the parent — local commits and earlier merge imports alike; a collector that
+    # looks at `event_kind` silently drops some of them and lets a contested slot be imported over the parent's value.
+    STR = "warp_core::strand::"
+    PEN = PS + "ProvenanceEntry"
+    prog.adt(PEN)
+    for nm in ("collect_parent_movement", "collect_divergence_footprint"):
+        cf = prog.fn(STR + nm)
+        ctree, _ = tree(prog, [cf], stop=lambda i: not i.startswith(STR))
+        ctree = [g for g in ctree if g.id.startswith(STR)]
+        rd = read_set(ctree, PEN)
+        rep.check("patch" in rd, "C15.R6", "%s:reads-patch" % nm, "collects from entry.patch", "%s no longer reads ProvenanceEntry.patch" % nm, site=cf.loc())
+        rep.check("event_kind" not in rd, "C15.R6", "%s:every-entry-kind-counts" % nm, "never inspects the event kind: every entry with a patch contributes",
+                  "%s filters provenance entries by event_kind (%s): patches recorded by some kinds of entry (e.g. an earlier merge import) no longer count as movement, so an "
+                  "overlapping slot is treated as disjoint and imported without revalidation" % (nm, sorted({"%s:%s" % (f_.rsplit("::", 1)[-1], l) for f_, l in rd.get("event_kind", [])})[:2]), site=cf.loc())
+        ex = [g for g in ctree if g.call_sites(r"::extend_patch$")]
+        rep.check(bool(ex), "C15.R6", "%s:extends-footprint" % nm, "footprint extended per patch", "%s no longer extends the footprint" % nm, site=cf.loc())
 
     plan = prog.fn(SV + "::plan_with_policy_internal")
     cmp_ = prog.fn(SV + "::compare_internal")
